@@ -202,7 +202,9 @@ def rows_of(x):
     return [list(r) for r in x]
 
 
-def partition_job(lengths, k=2):
+def partition_job(lengths, k=2, ci_array=False):
+    """ci_array: the flat result carries its center indices as an int64 ndarray (what find_cluster_centers / predict / kmedoids
+    produce) instead of a list; splitting must leave the flat result as it was (a second split of the same result must agree)"""
     kc, km, hy, cu, ops = cluster.mods()
     ra = loader.load('enspara.ra.ra')
     lengths = list(lengths)
@@ -212,7 +214,8 @@ def partition_job(lengths, k=2):
         av = [core.fresh_int('assig') for _ in range(Ntot)]
         dv = [core.fresh_real('dist') for _ in range(Ntot)]
         ci = [core.fresh_int('cidx', 0, Ntot - 1) for _ in range(k)]
-        res = cu.ClusterResult(center_indices=list(ci), assignments=funcs.np_array(av, dtype=int),
+        ci_in = funcs.np_array(list(ci), dtype=np.int64) if ci_array else list(ci)
+        res = cu.ClusterResult(center_indices=ci_in, assignments=funcs.np_array(av, dtype=int),
                                distances=funcs.np_array(dv, dtype=float), centers=['c%d' % j for j in range(k)])
         exc = None
         try:
@@ -246,8 +249,10 @@ def partition_job(lengths, k=2):
             cd = [float(ev(model, v)) for v in dv]
             cci = [int(ev(model, v)) for v in ci]
             out = {'inputs': {'lengths': lengths, 'assignments': ca, 'distances': cd, 'center_indices': cci}}
-            r = cu.ClusterResult(center_indices=list(cci), assignments=np.array(ca), distances=np.array(cd),
+            cci_in = np.array(cci, dtype=np.int64) if ci_array else list(cci)
+            r = cu.ClusterResult(center_indices=cci_in, assignments=np.array(ca), distances=np.array(cd),
                                  centers=['c%d' % j for j in range(k)])
+            out['inputs']['center_indices_container'] = 'int64 ndarray' if ci_array else 'list'
             with core.concrete_mode():
                 try:
                     pp = r.partition(np.array(lengths))
@@ -265,6 +270,9 @@ def partition_job(lengths, k=2):
             bad = run_oracle(oracle(pa, pd, pci, ca, cd, cci, kind_ok))
             if flat_back != ca:
                 bad.append('concatenation-does-not-restore-flat-array')
+            if [int(x) for x in r.center_indices] != cci or [int(x) for x in r.assignments] != ca:
+                bad.append('flat-result-modified-by-partition')
+                out['signature'] = 'partition:flat-result-modified'
             out['violated'] = bad
             return out
         if exc is not None:
@@ -278,6 +286,9 @@ def partition_job(lengths, k=2):
             if not square and kind_ok:
                 obs.append(('ragged-flat-data-is-the-concatenation',
                             conj([x == y for x, y in zip(cells(p.assignments._data), av)])))
+            obs.append(('flat-result-unmodified-by-partition',
+                        conj([x == y for x, y in zip(list(cells(res.center_indices)) if ci_array else list(res.center_indices), ci)] +
+                             [x == y for x, y in zip(cells(res.assignments), av)] + [x == y for x, y in zip(cells(res.distances), dv)])))
             so = {'assignments': pa, 'distances': pd, 'center_indices': [list(x) for x in pci]}
         except Exception as e:          # result has an unexpected structure
             obs = [('result-has-the-documented-structure', False)]
@@ -402,6 +413,8 @@ def jobs(tier):
     for n in range(1, (6 if q else 9) + 1):
         for comp in compositions(n):
             add('partition_job', 'partition[%s]' % ','.join(map(str, comp)), lengths=comp, k=min(2, n))
+            if n <= 4:
+                add('partition_job', 'partition[%s,center indices as int64 array]' % ','.join(map(str, comp)), lengths=comp, k=min(2, n), ci_array=True)
     for T in ((1, 2, 3) if q else (1, 2, 3, 4, 5, 6)):
         add('partition_indices_job', 'partition_indices[T=%d,unbounded]' % T, T=T)
         add('batches_job', 'compute_batches[T=%d,unbounded]' % T, T=T)
